@@ -20,6 +20,7 @@ RULE = (
     '; pass 5: every hand-written backward must leave its upstream gradient untouched; lengthscales below eps; sums / products of fast-path kernels and caller-owned grad_outputs'
     "; pass 6: far lower tail of log Phi in float64 (to -1e6) and float32 (to -3e3); tril-natural states with negative factor diagonals, gradients on the returned factor's branch"
     "; pass 8: test-input gradients under fast_pred_var (cold and warm caches, covariance term) and for a Matern kernel whose nu was reassigned after construction"
+    "; pass 10: lengthscales of order 1e6 (gradients compared relatively); inputs that are different views of one buffer"
 )
 REQUIRED = ["input_gradient_matches_oracle", "fast_backward_matches_oracle", "fast_equals_generic", "fast_backward_matches_fd", "logcdf_backward", "natural_backward_is_natural_gradient", "tril_natural_backward", "ciq_ngd_backward", "test_input_gradient", "monitor:RBFCovariance.backward", "monitor:MaternCovariance.backward"]
 ASSUMPTIONS = ["at coincident points (r = 0) Matern-1/2 is not differentiable: the generic path's sub-gradient convention (0 contribution) is the reference there", "finite differences: central, step 1e-6, compared at 1e-5 relative"]
